@@ -146,7 +146,7 @@ theorem drained_account_events_partial (E : Engine σ μ α ρ) (X : Exchange χ
 /-! ## The negative result, on the concrete engine the driver runs -/
 
 /-- dataset: 3 trades on one instrument -/
-def wDs : List MktEv := [⟨0, 0, 100⟩, ⟨1, 0, 101⟩, ⟨2, 0, 102⟩]
+def wDs : List MktEv := [.trade 0 0 100, .trade 1 0 101, .trade 2 0 102]
 /-- strategy: buy 1 after the first market event; it never looks at account events -/
 def wPlan : List PlanItem := [⟨1, 0, .buy, 1⟩]
 def wLazy : List Act := schedActs cEngine cExchange pickLazy 100 (cInit 1 wPlan wDs)
@@ -189,18 +189,33 @@ theorem concrete_init_settled (k : Nat) (plan : List PlanItem) : Settled (cEng0 
 
 /-- a schedule under which the hypotheses `stopped = some .shutdown` are met, with a non-trivial feed -/
 example : (run cEngine cExchange (cInit 1 wPlan wDs) wEager).processed =
-    [.account (.snapshot [100, 100000]), .market ⟨0, 0, 100⟩, .account (.order 0 true),
-     .account (.balance 1 99900), .account (.trade 0 .buy 1 100), .market ⟨1, 0, 101⟩,
-     .market ⟨2, 0, 102⟩, .shutdown] := by decide
+    [.account (.snapshot [100, 100000]), .market (.trade 0 0 100), .account (.order 0 true),
+     .account (.balance 1 99900), .account (.trade 0 .buy 1 100), .market (.trade 1 0 101),
+     .market (.trade 2 0 102), .shutdown] := by decide
 example : (run cEngine cExchange (cInit 1 wPlan wDs) wLazy).processed =
-    [.market ⟨0, 0, 100⟩, .market ⟨1, 0, 101⟩, .market ⟨2, 0, 102⟩, .shutdown] := by decide
+    [.market (.trade 0 0 100), .market (.trade 1 0 101), .market (.trade 2 0 102), .shutdown] := by decide
 /-- `stopped = none` is reachable with events in all three places -/
 example : let s := run cEngine cExchange (cInit 1 wPlan wDs) [.fwdMarket, .fwdMarket, .engine]
-    s.stopped = none ∧ marketOf s.processed = [⟨0, 0, 100⟩] ∧ marketOf s.feed = [⟨1, 0, 101⟩] ∧
-    s.market = [⟨2, 0, 102⟩] ∧ s.pending.length = 4 := by decide
+    s.stopped = none ∧ marketOf s.processed = [.trade 0 0 100] ∧ marketOf s.feed = [.trade 1 0 101] ∧
+    s.market = [.trade 2 0 102] ∧ s.pending.length = 4 := by decide
 /-- isolation on a concrete 2-machine system with different strategies -/
 example : (sysRun cEngine cExchange [cInit 1 wPlan wDs, cInit 1 [] wDs]
       (interleave 100 [wEager, wLazy]))[0]?.map (fun s => (cSummarise s.eng).pos) = some [1] := by
   decide
+
+/-- `Reconnecting` markers are dataset elements like any other (`μ` is the whole stream event type):
+markers before the first Item, between Items and after the last one are all fed, in order, before
+`Shutdown`, and the engine's on-disconnect recorder sees each of them. -/
+def wDsR : List MktEv :=
+  [.reconnecting 0, .reconnecting 1, .trade 2 0 100, .reconnecting 3, .trade 4 0 101, .reconnecting 5]
+def wRLazy : BT CEng CExch MktEv AccEv :=
+  run cEngine cExchange (cInit 1 wPlan wDsR) (schedActs cEngine cExchange pickLazy 100 (cInit 1 wPlan wDsR))
+def wREager : BT CEng CExch MktEv AccEv :=
+  run cEngine cExchange (cInit 1 wPlan wDsR) (schedActs cEngine cExchange pickEager 100 (cInit 1 wPlan wDsR))
+example : wRLazy.stopped = some .shutdown ∧ marketOf wRLazy.processed = wDsR ∧
+    wRLazy.eng.mv.seen = [none, none, some 2, none, some 4, none] ∧ wRLazy.eng.mv.nMkt = 2 := by decide
+example : wREager.stopped = some .shutdown ∧ marketOf wREager.processed = wDsR ∧
+    wREager.eng.mv.seen = [none, none, some 2, none, some 4, none] ∧
+    (cSummarise wREager.eng).pos = [1] := by decide
 
 end BarterModel.Props.C20
